@@ -61,6 +61,23 @@ def run_shard(rec):
                 ins = inputs_for(alphabet_for(cx, bytes_mode), maxlen if cname == 'alone' else min(maxlen, 4), bytes_mode)
                 run_grammar(rec, G, ins, tag + (cname, 'b' if bytes_mode else 't'),
                             trace=(idx % 5 == 0))
+    # Phase A2: literals whose spelling needs escaping or whose matching has corner cases
+    for bytes_mode, zoo in ((False, gen.literal_zoo()), (True, gen.bytes_zoo())):
+        for ztag, lit, alpha in zoo:
+            for cname, cx in (('alone', lit), ('seq-rest', ('seq', [lit, ('bre' if bytes_mode else 're', '(?s).*', False)])),
+                              ('star', ('star', lit)), ('alt', ('alt', [('seq', [lit, ('fail', None)]), ('bre' if bytes_mode else 're', '(?s).*', False)])),
+                              ('not', ('seq', [('expectnot', lit), ('bre' if bytes_mode else 're', '(?s).?', False)]))):
+                idx += 1
+                if not rec.mine(idx):
+                    continue
+                G = gast.simple_grammar({'start': cx})
+                if not gen.well_formed(G):
+                    rec.drop()
+                    continue
+                ins = list(gen.all_strings(alpha, 4))
+                if bytes_mode:
+                    ins = [t.encode('latin-1') for t in ins]
+                run_grammar(rec, G, ins, ('zoo', ztag, cname, 'b' if bytes_mode else 't'), trace=(idx % 4 == 0))
     rec.count('phaseA_done')
     # Phase B: depth 2 over the reduced leaf set (seed-rotated sample in quick)
     reduced = [('str', 'a'), ('str', 'ab'), ('re', 'a?', False), ('ref', 'Rab')]
